@@ -62,6 +62,14 @@ for sd in sorted(glob.glob(os.path.join(V, "seeded", "C??", "?"))):
         rows.append("| %s | %s | n/a on the final tree (on its base commit: %s) | %s | %s |" % (sid, meta.get("summary", "").replace("|", "\\|")[:230], ", ".join(own) or "—", hist.get(sid, {}).get("first", "?"), hist.get(sid, {}).get("strengthened", "")))
         continue
     cbt = "; ".join("%s: %s" % (p, ", ".join(sorted(set(r.replace(p + "-", "") for r in v)))) for p, v in sorted(cb.items())) or "—"
+    if not cb:
+        cr = {}
+        crp = os.path.join(sd, "check_result.json")
+        if os.path.exists(crp):
+            cr = json.load(open(crp))
+        own = [p for p, v in cr.items() if v.get("exit") == 1 and v.get("violations")]
+        if own:
+            cbt = "— on the final tree (the code it edits is no longer reachable after a later fix); on its base commit: %s" % ", ".join(own)
     h = hist.get(sid, {})
     rows.append("| %s | %s | %s | %s | %s |" % (sid, meta.get("summary", "").replace("|", "\\|")[:230], cbt, h.get("first", "?"), h.get("strengthened", "")))
 n = len(rows) - 2
